@@ -17,6 +17,8 @@ CONSTANTS
   Reorder = FALSE
   RecvAnywhere = FALSE
   PropsOn <- P_C15
+  MaxHostile = 0
+  HostileSet = "none"
   ExportAll = FALSE
   Export = TRUE
 INVARIANT NoFlag
